@@ -248,6 +248,45 @@ Definition sp_rhat2 (chains : list (list Qc)) : Qc :=
   let x := sx chains n in
   ((qn n - 1) * sp_W x M n + sp_B x M n) / qn n / sp_W x M n.
 
+(** ---------- histories of public-attribute assignments on ONE Sample object ---------- *)
+
+(** The summaries as functions of the object's CURRENT public state only: the [samples] dict and
+    the [weights] attribute.  The model keeps nothing else: no value is remembered from the
+    constructor or from an earlier call (same inner expressions as [sample_means] /
+    [model_quantiles] / [samples_array] above, which apply them to the freshly built dict). *)
+Definition means_of (s : dict) (w : option (list Qc)) : option (list (string * Qc)) :=
+  opt_all (map (fun kv => option_map (pair (fst kv)) (average w (snd kv))) s).
+Definition quantiles_of (s : dict) (w : option (list Qc)) (alpha : Qc) : option (list (string * Qc)) :=
+  opt_all (map (fun kv => option_map (pair (fst kv)) (quantile (snd kv) alpha w)) s).
+Definition array_of (s : dict) : option (list (list Qc)) := column_stack (map snd s).
+
+(** the attributes of a constructed [Sample] the summaries read *)
+Record sobj := { so_names : list string; so_outputs : dict; so_samples : dict; so_weights : option (list Qc) }.
+
+(** [Sample(method, outputs, parameter_names, weights=w)] *)
+Definition construct (names : list string) (outputs : dict) (w : option (list Qc)) : option sobj :=
+  option_map (fun s => Build_sobj names outputs s w) (samples names outputs).
+
+(** what a caller (or the library: [SMC._extract_population] does [sample.weights = w]) may do to
+    the object after construction.  Rebinding the attribute and writing into the stored array are
+    the same transition here: the state is the VALUE of the attribute. *)
+Inductive op :=
+| OSetW (w : option (list Q))          (* obj.weights = w        /  obj.weights[...] = ... *)
+| OSetCol (k : string) (v : list Q).   (* obj.samples[k] = v     /  obj.samples[k][...] = ... *)
+
+Definition step (o : sobj) (a : op) : sobj :=
+  match a with
+  | OSetW w => Build_sobj (so_names o) (so_outputs o) (so_samples o) (option_map (map Q2Qc) w)
+  | OSetCol k v => Build_sobj (so_names o) (so_outputs o) (dset (so_samples o) k (map Q2Qc v)) (so_weights o)
+  end.
+Definition run (o : sobj) (ops : list op) : sobj := fold_left step ops o.
+
+(** the summaries of an object *)
+Definition so_n (o : sobj) : option nat := n_samples (so_names o) (so_outputs o).
+Definition so_array (o : sobj) := array_of (so_samples o).
+Definition so_means (o : sobj) := means_of (so_samples o) (so_weights o).
+Definition so_quantiles (o : sobj) (alpha : Qc) := quantiles_of (so_samples o) (so_weights o) alpha.
+
 (** ---------- correspondence interface ---------- *)
 
 Definition cQ (l : list Q) : list Qc := map Q2Qc l.
@@ -298,6 +337,16 @@ Definition model_quantiles (names : list string) (outputs : dict) (w : option (l
   | Some s => opt_all (map (fun kv => option_map (pair (fst kv)) (quantile (snd kv) alpha w)) s)
   end.
 
+(** everything observed on one object at one point of its history *)
+Record obs := {
+  ob_exact : bool;                                 (* binary64 arithmetic is exact on the current data and weights *)
+  ob_n : option nat;                               (* n_samples *)
+  ob_array : option (list (list Q));               (* samples_array, None = raised *)
+  ob_means : option (list (string * Q));           (* sample_means, None = raised *)
+  ob_means_more : list (list (string * Q));        (* sample_means_array and the means of sample_means_and_95CIs, keyed *)
+  ob_quant : list qobs                             (* sample_quantiles(alpha); the 2.5% / 97.5% ends of sample_means_and_95CIs *)
+}.
+
 Inductive case :=
 | CSample (names : list string) (outputs : list (string * list Q)) (burn : nat)   (* BslSample: outputs[k][burn_in:] *)
           (weights : option (list Q)) (exact : bool)
@@ -310,7 +359,9 @@ Inductive case :=
 | CDiag (chains : list (list Q))
         (i_rhat i_ess : Q)                                  (* on the chains as given *)
         (a b : Q) (i_rhat_aff i_ess_aff : Q)                (* on a*x+b *)
-        (perm : list nat) (i_rhat_perm i_ess_perm : Q).     (* on chains reordered by perm *)
+        (perm : list nat) (i_rhat_perm i_ess_perm : Q)      (* on chains reordered by perm *)
+| CHist (names : list string) (outputs : list (string * list Q)) (burn : nat) (weights : option (list Q))
+        (steps : list (list op * obs)).                     (* assignments, then everything observed on the SAME object *)
 
 Definition opt_nat_eqb (a b : option nat) : bool :=
   match a, b with None, None => true | Some x, Some y => (x =? y)%nat | _, _ => false end.
@@ -321,6 +372,30 @@ Definition burned (burn : nat) (outputs : list (string * list Q)) : dict :=
 (** the constructor raises KeyError when a parameter name has no output: nothing is observable then *)
 Definition built (names : list string) (o : dict) : bool :=
   match samples names o with Some _ => true | None => false end.
+
+(** model = implementation at one point of a history: the model's summaries of the CURRENT state *)
+Definition obs_agree (o : sobj) (b : obs) : bool :=
+  opt_nat_eqb (so_n o) (ob_n b)
+  && eq_opt_rows (so_array o) (ob_array b)
+  && (match ob_n b with
+      | Some O => true
+      | _ => eq_opt_named (ob_exact b) (so_means o) (ob_means b)
+             && forallb (fun ms => eq_opt_named (ob_exact b) (so_means o) (Some ms)) (ob_means_more b)
+      end)
+  && forallb (fun q : qobs => eq_opt_named true (so_quantiles o (Q2Qc (fst q))) (Some (snd q))) (ob_quant b).
+
+Definition obs_none (b : obs) : bool :=
+  match ob_n b, ob_array b, ob_means b, ob_means_more b, ob_quant b with
+  | None, None, None, [], [] => true
+  | _, _, _, _, _ => false
+  end.
+
+(** walk through a history: apply the assignments of a step, then judge what was observed *)
+Fixpoint hist_all (f : sobj -> obs -> bool) (o : sobj) (steps : list (list op * obs)) : bool :=
+  match steps with
+  | [] => true
+  | (ops, b) :: r => let o' := run o ops in f o' b && hist_all f o' r
+  end.
 
 Definition agree (c : case) : bool :=
   match c with
@@ -344,6 +419,11 @@ Definition agree (c : case) : bool :=
   | CDiag chains i_rhat i_ess a b i_rhat_aff i_ess_aff perm i_rhat_perm i_ess_perm =>
       let ch := map cQ chains in
       close tol_diag (rhat2 ch) (i_rhat * i_rhat)%Q && close tol_diag (ess ch) i_ess
+  | CHist names outputs burn w steps =>
+      match construct names (burned burn outputs) (option_map cQ w) with
+      | Some o => hist_all obs_agree o steps
+      | None => forallb (fun st => obs_none (snd st)) steps
+      end
   end.
 
 (** ---------- [ok]: the property's own statement, evaluated on the implementation's output ---------- *)
@@ -409,6 +489,17 @@ Definition bolfi_ok (k : nat) (chains : list (list (list Qc))) (warmup : nat) (i
 
 Definition permute {A} (d : A) (perm : list nat) (l : list A) : list A := map (fun i => nth i l d) perm.
 
+(** the property at one point of a history: columns, means and quantiles reported by the
+    implementation are those of the samples and weights the object holds NOW *)
+Definition obs_ok (o : sobj) (b : obs) : bool :=
+  let names := so_names o in
+  let s := so_samples o in
+  let w := so_weights o in
+  match ob_array b with Some arr => array_ok names s arr && opt_nat_eqb (ob_n b) (Some (length arr)) | None => true end
+  && match ob_means b with Some ms => means_ok (ob_exact b) names s w ms | None => true end
+  && forallb (means_ok (ob_exact b) names s w) (ob_means_more b)
+  && forallb (quants_ok (ob_exact b) names s w) (ob_quant b).
+
 Definition ok (c : case) : bool :=
   match c with
   | CSample names outputs burn w exact i_n i_array i_means i_quant =>
@@ -439,4 +530,9 @@ Definition ok (c : case) : bool :=
       && close tol_diag (ess ch) i_ess        (* [ess] is the formula itself: C16_ess_formula *)
       && closeq tol_diag i_rhat_aff i_rhat && closeq tol_diag i_ess_aff i_ess
       && closeq tol_diag i_rhat_perm i_rhat && closeq tol_diag i_ess_perm i_ess
+  | CHist names outputs burn w steps =>
+      match construct names (burned burn outputs) (option_map cQ w) with
+      | Some o => if nodupb names then hist_all obs_ok o steps else true
+      | None => true
+      end
   end.
